@@ -506,7 +506,11 @@ pub fn run(ctx: &Ctx) {
             "(define (rest2 p q . r) r)".to_string(),
             "(define lam0 (lambda () 0))".to_string(),
         ];
-        let pool = ["vec", "nested", "ustr", "usym", "two", "rest2", "lam0", "car", "'()", "0", "-1", "1/2", "1.5", "#\\λ", "'sym", "(list ustr ustr)", "(vector ustr vec)"];
+        let pool = [
+            "vec", "nested", "ustr", "usym", "two", "rest2", "lam0", "car", "'()", "0", "-1", "1/2", "1.5", "#\\λ", "'sym", "(list ustr ustr)", "(vector ustr vec)",
+            // numbers without an order or a finite value
+            "(sqrt -1)", "(/ 1. 0)", "(- (/ 1. 0))", "(* 0 (exp 1000))", "-0.0", "1e39", "(- (/ 1. 0) (/ 1. 0))", "-2147483648", "2147483647",
+        ];
         let mut forms = prelude;
         for _ in 0..1 + ch.below(4) {
             let f = match ch.below(4) {
